@@ -207,12 +207,15 @@ def _table_worker(task):
         if alt is not None:
             it += " [%s [%s]]" % (root_jdn(alt[0]), " ".join(op_jdn(o) for o in alt[1]))
         items.append(it + "]")
-    res = run_batch(_W["variant"], DRV_TABLE, items, env=_W["env"], chunk=max(1, len(items)), jobs=1, timeout=60)
+    res = run_batch(_W["variant"], DRV_TABLE, items, env=_W["env"], chunk=max(1, len(items)), jobs=1, timeout=30, max_deaths=3)
     full = bool(flags & 1)
     out = []
     cache = {}
     for (sid, root, hist, mitems, proto, alt), (status, text) in zip(task, res):
         mdl = M.TableModel(dict(mitems), proto)
+        if status == "SKIPPED":
+            out.append((sid, None, [("skipped", text)], []))
+            continue
         if status != "OK":
             out.append((sid, None, [("driver-" + status.lower(), text[-600:])], []))
             continue
@@ -349,10 +352,13 @@ def table_bfs(chk, name, keys, roots, max_depth, variant, full, with_clone, dead
                         seen[bkey] = sid
                     keys_of[sid] = bkey
                 else:
-                    if bkey != keys_of.get(sid):
+                    if bkey is not None and bkey != keys_of.get(sid):   # None: the worker died or was skipped
                         raise HarnessError("C04 %s: replay of %s reached %s, recorded %s" % (
                             name, fmt_hist(st.root, st.hist), bkey, keys_of.get(sid)))
                 for kind, text in bprob:
+                    if kind == "skipped":
+                        chk.cap("%s: states not expanded after repeated dead workers" % name)
+                        continue
                     if kind.startswith("driver-") or kind.startswith("harness") or kind == "format":
                         if kind in ("driver-crash", "driver-timeout"):
                             report(kind, "expanding the state: " + text, st.root, st.hist, mdl, bprob)
